@@ -8,17 +8,17 @@ func vc15Quads() []vc15Quad {
 	h := int64(time.Hour)
 	s := int64(time.Second)
 	return []vc15Quad{
-		{0, 0, 23976 * s, 25000 * s, 3125, 2997},            // 25/23.976
-		{0, 0, 25000 * s, 23976 * s, 2997, 3125},            // 23.976/25
-		{0, 0, 2997 * s, 3000 * s, 1000, 999},               // 30/29.97
+		{0, 0, 23976 * s, 25000 * s, 3125, 2997}, // 25/23.976
+		{0, 0, 25000 * s, 23976 * s, 2997, 3125}, // 23.976/25
+		{0, 0, 2997 * s, 3000 * s, 1000, 999},    // 30/29.97
 		// reference points late in a long programme and 39 ms apart, odd nanosecond values: any formula that subtracts
 		// two products of that size loses the intercept
 		{21*h + 123456789, 22*h + 987654321, 21*h + 123456789 + 2997*13000, 22*h + 987654321 + 3125*13000, 3125, 2997},
-		{1 * s, 3 * s, 3 * s, 5 * s, 1, 1},                  // slope 1, offset
-		{0, 5 * s, 2 * h, 5*s + h, 1, 2},                    // slope 1/2
-		{10 * s, 0, 20 * s, 20 * s, 2, 1},                   // slope 2
-		{3 * s, 1 * s, 5 * s, 4 * s, 3, 2},                  // 1.5 (the unit test's)
-		{100 * s, 90 * s, 7300 * s, 7283 * s, 7193, 7200},   // slightly below 1
+		{1 * s, 3 * s, 3 * s, 5 * s, 1, 1},                      // slope 1, offset
+		{0, 5 * s, 2 * h, 5*s + h, 1, 2},                        // slope 1/2
+		{10 * s, 0, 20 * s, 20 * s, 2, 1},                       // slope 2
+		{3 * s, 1 * s, 5 * s, 4 * s, 3, 2},                      // 1.5 (the unit test's)
+		{100 * s, 90 * s, 7300 * s, 7283 * s, 7193, 7200},       // slightly below 1
 		{h, h + 7, 2 * h, 2*h + 11, 900000000001, 900000000000}, // almost identity, ns offsets
 	}
 }
